@@ -98,7 +98,16 @@ func (m mergeRunner) Run(c *Ctx, i int) CaseResult {
 		for s := 0; s < k; s++ {
 			svcs = append(svcs, genService(r, tbl, s))
 		}
-		if i%3 != 0 || m.prop == "C09" {
+		if j := i - len(mergeCorpus); j < len(mergeMutations) {
+			// catalogue sweep: every single-point difference once per run, between two services that both have
+			// the whole table (so the difference is sure to meet its counterpart), plus random extra services
+			full := func() []mDef { return append([]mDef{}, tbl...) }
+			svcs[0], svcs[1] = full(), full()
+			which := r.Intn(2)
+			if mergeMutations[j].Apply(svcs[which]) {
+				mc.Mutation, mc.Mutated = mergeMutations[j].Name, which
+			}
+		} else if i%3 != 0 || m.prop == "C09" {
 			// one single-point difference in one service (C09 always mutates; the others two thirds of the time)
 			mu := mergeMutations[(i/3+r.Intn(3))%len(mergeMutations)]
 			which := r.Intn(k)
